@@ -13,6 +13,7 @@ STD_ENUMS = {
     'ControlFlow': ['Continue', 'Break'],
     'Cow': ['Borrowed', 'Owned'],
     'Bound': ['Included', 'Excluded', 'Unbounded'],
+    'Value': ['Null', 'Bool', 'Number', 'String', 'Array', 'Object'],
 }
 ORDERING = {'Less': -1, 'Equal': 0, 'Greater': 1}
 
